@@ -306,6 +306,18 @@ def check_crash_run(res: CompResult, d: dict[str, Any], n: int, mode: str, ops: 
     reports = [x for x in d["records"] if x["k"] == "report" and x["side"] == "ctl"]
     crash_reps = [x for x in reports if x["when"] == "???"]
     if each:
+        # C08 on a real run: every environment runs every test exactly once (the crashing test once per environment, reported as
+        # crashed; what the dead worker had left is run by its replacement)
+        setups = Counter(x["nodeid"] for x in reports if x["when"] == "setup")
+        allids = {x["item"] for x in protos}
+        for t in sorted(allids):
+            if t.endswith("::test_crash"):
+                continue
+            if setups[t] != n:
+                fire("C08", "e2e-each-test-count", f"--dist each with {n} environments: {t} was run {setups[t]} times (setup reports)")
+                break
+        if len(crash_reps) != 1:
+            fire("C08", "e2e-each-crash-count", f"--dist each, test_crash kills one worker once: {len(crash_reps)} crash reports")
         return
     for (item, _), c in starts.items():
         if c != 1:
@@ -341,17 +353,26 @@ def e2e(tier: str, seed: int, what: str) -> CompResult:
     jobs = []
     for si in range(nsuites):
         root = scratch / f"s{si}"
-        files = gen_suite(rng, with_warnings=(what == "warnings"), with_crash=(what == "crash" or (what == "identity" and si % 2 == 0)), groups=True)
+        files = gen_suite(rng, with_warnings=(what == "warnings"), with_crash=(what in ("crash", "crash-each") or (what == "identity" and si % 2 == 0)), groups=True)
         write_suite(root, files)
         combos = [(rng.choice(modes[:5]), rng.choice([1, 2, 3]))] if tier == "quick" else [(m, rng.choice([1, 2, 4])) for m in rng.sample(modes[:5], 3)]
+        if what == "crash-each":
+            combos = [("each", rng.choice([2, 3]))]
+        # some runs name their workers explicitly (`--tx popen//id=...`): a replacement must still get a fresh id
+        explicit = what in ("crash", "crash-each") and rng.random() < (0.7 if what == "crash-each" else 0.35)
+        combos = [(m, n, explicit and n >= 2) for m, n in combos]
         jobs.append((root, files, combos))
 
     def one(job: tuple) -> list[tuple]:
         root, files, combos = job
         out = []
         base = run_pytest(root, ["-n0"], "base") if what not in ("identity", "crash") else None
-        for mode, n in combos:
-            d = run_pytest(root, ["-n", str(n), "--dist", mode], f"{mode}{n}")
+        for mode, n, explicit in combos:
+            if explicit:
+                args = [a for k in range(n) for a in ("--tx", f"popen//id=env{chr(65 + k)}")] + ["--dist", mode]
+            else:
+                args = ["-n", str(n), "--dist", mode]
+            d = run_pytest(root, args, f"{mode}{n}")
             out.append((root, files, mode, n, base, d))
         return out
 
@@ -367,12 +388,12 @@ def e2e(tier: str, seed: int, what: str) -> CompResult:
         if len(workers) >= 2:
             res.distinct.add(h((files, d["args"])))
         if d["rc"] in (3, 4, 124):
-            res.violations.append(Violation({"identity": "C17", "crash": "C03"}.get(what, "C04"), f"e2e.{what}", f"pytest {d['args']} ended with status {d['rc']}: {d['out'][-300:]}",
+            res.violations.append(Violation({"identity": "C17", "crash": "C03", "crash-each": "C08"}.get(what, "C04"), f"e2e.{what}", f"pytest {d['args']} ended with status {d['rc']}: {d['out'][-300:]}",
                                             f"e2e-internal-error:{d['rc']}", ops, {}))
             continue
         if what == "identity":
             check_identities(res, d, n, ops)
-        elif what == "crash":
+        elif what in ("crash", "crash-each"):
             check_crash_run(res, d, n, mode, ops)
         elif what == "reports" and base is not None:
             check_against_inprocess(res, d, base, ops, f"--dist {mode} -n{n}")
